@@ -157,7 +157,9 @@ def loop_heads(m, b0, b1):
     return res
 
 
-def annotate(src, loops_text):
+def annotate(src, loops_text, breaks=None):
+    """breaks: if a list is given, entries that cannot be placed are appended
+    to it as (function, ordinal, message) instead of raising."""
     prelude, entries = parse_loops(loops_text)
     m = mask(src)
     inserts = []  # (position, text)
@@ -168,12 +170,21 @@ def annotate(src, loops_text):
         if last is None:
             last = 0
         inserts.append((last, OPEN + "\n" + "\n".join(prelude) + "\n" + CLOSE))
+    counts = {}
     for e in entries:
-        b0, b1 = find_function_body(m, e["fn"])
-        heads = loop_heads(m, b0, b1)
-        if e["ord"] >= len(heads):
-            raise AnnotateError("function %s has %d loops, ordinal %d requested"
-                                % (e["fn"], len(heads), e["ord"]))
+        counts[e["fn"]] = max(counts.get(e["fn"], 0), e["ord"] + 1)
+    for e in entries:
+        try:
+            b0, b1 = find_function_body(m, e["fn"])
+            heads = loop_heads(m, b0, b1)
+            if e["ord"] >= len(heads):
+                raise AnnotateError("function %s has %d loops, ordinal %d requested"
+                                    % (e["fn"], len(heads), e["ord"]))
+        except AnnotateError as ex:
+            if breaks is None:
+                raise
+            breaks.append((e["fn"], e["ord"], str(ex)))
+            continue
         inserts.append((heads[e["ord"]],
                         OPEN + "\n" + "\n".join(e["text"]) + "\n" + CLOSE))
     out = src
